@@ -127,7 +127,7 @@ theorem countPrefixes_spec (fds : List Nat) (m : Int) (hm : 1 ≤ m) :
     (fun j => (fds.filter (fun d => d - mn = j)).length) hP k 0 [1]
   have h0 : List.filter (fun (_ : Nat) => false) fds = [] := by simp
   simp only [Nat.not_lt_zero, decide_false, h0, List.length_nil, Nat.add_zero, Nat.zero_add] at this
-  rw [hk, Nat.add_sub_cancel, List.range_eq_range', this,
+  rw [hk, Nat.add_sub_cancel, List.range_eq_range', this, List.range_eq_range',
     show List.range' 0 (k + 1) = 0 :: List.range' (0 + 1) k from List.range'_succ]
   simp
 
